@@ -275,7 +275,7 @@ def _catalog():
                                                     threshold_range_max=1))
         add("thrA-" + meth, "threshold.get_threshold", "IM",
             lambda a, m, meth=meth: T.get_threshold(meth, T.TM_ADAPTIVE, a, mask=m, threshold_range_min=0,
-                                                    threshold_range_max=1, adaptive_window_size=6))
+                                                    threshold_range_max=1, adaptive_window_size=4))
         add("thrPO-" + meth, "threshold.get_threshold", "IML",
             lambda a, m, l, meth=meth: T.get_threshold(meth, T.TM_PER_OBJECT, a, mask=m, labels=l,
                                                        threshold_range_min=0, threshold_range_max=1))
@@ -843,7 +843,16 @@ def generate(ctx):
             calls.append([keys[i], 1])
         cases.append(_mk_case(ctx, rng, cat, calls=calls))
         ctx.count("sweep")
-    for _ in range(ctx.n(110, 2900)):
+    # ordered pairs of the calls that fill lazily built tables or draw random numbers, each on both
+    # input sets (thorough: all pairs; quick: a random tenth)
+    sk = _STATEFUL_KEYS(cat)
+    for a in sk:
+        for b in sk:
+            if ctx.quick() and rng.rand() > 0.08:
+                continue
+            cases.append(_mk_case(ctx, rng, cat, calls=[[a, 0], [b, 1], [a, 1], [b, 0]]))
+            ctx.count("stateful_pairs")
+    for _ in range(ctx.n(200, 2400)):
         cases.append(_mk_case(ctx, rng, cat))
         ctx.count("random")
     for c in cases:
@@ -855,12 +864,63 @@ def generate(ctx):
     return cases
 
 
+def _model_witnesses(ctx):
+    """ask the state machine (extracted from the CURRENT generated table) which one-call histories
+    change the result of which call: pairs (f_before, f) with result_after [f_before] f <> result_after [] f,
+    and calls whose result depends on the incoming generator state alone"""
+    from harness import core
+    cat = _catalog_index(ctx)
+    fm = _fid_map(ctx)
+    with core.CoqLock():
+        core.coq_make([EXTRACT[0][:-2] + ".vo"], timeout=900, jobs=4)
+    fns = sorted({c[1] for c in cat if c[1] in fm})
+    ids = [fm[f]["id"] for f in fns]
+    n = len(ids)
+    args = [[0, 1, [[a, 3]], [b, 5]] for a in ids for b in ids] + [[0, 1, [], [b, 5]] for b in ids]
+    res = ctx.run_model("entry_hi", args)
+    pairs = [(fns[i // n], fns[i % n]) for i in range(n * n) if res[i] == 0]
+    alone = [fns[i] for i in range(n) if res[n * n + i] == 0]
+    return pairs, alone
+
+
 def search_cases(ctx, rnd):
-    """after a broken obligation: histories aimed at the functions the translator flagged, plus a
-    larger random batch"""
+    """after a broken obligation: (round 0) the histories on which the state machine built from the
+    regenerated table itself predicts a history-dependent result, instantiated with every catalog call
+    of the two functions; then histories aimed at the functions the translator flagged, plus a larger
+    random batch"""
     cat = _catalog_index(ctx)
     rng = ctx.rng
     side = _side(ctx)[0]
+    if rnd == 0:
+        try:
+            pairs, alone = _model_witnesses(ctx)
+        except Exception as e:                      # the model may not build when the table is malformed
+            ctx.note("model-guided search unavailable: %s" % str(e)[:200])
+            pairs, alone = [], []
+        ctx.count("search.model_witness_pairs", len(pairs))
+        ctx.count("search.model_witness_single", len(alone))
+        bykey = {}
+        for c in cat:
+            bykey.setdefault(c[1], []).append(c[0])
+        cases = []
+        alone_set = set(alone)
+        # a function that depends on the incoming state alone is a witness after anything: keep the pairs
+        # whose second member is not already a single-call witness small
+        for f in alone:
+            for kb in bykey[f][:4]:
+                cases.append(_mk_case(ctx, rng, cat, calls=[[kb, 0], [kb, 1], [kb, 0]]))
+        order = list(rng.permutation(len(pairs)))
+        for i in order:
+            fa, fb = pairs[i]
+            if fb in alone_set:
+                continue
+            ka = bykey[fa][int(rng.randint(len(bykey[fa])))]
+            kb = bykey[fb][int(rng.randint(len(bykey[fb])))]
+            cases.append(_mk_case(ctx, rng, cat, calls=[[ka, 0], [kb, 1], [kb, 0], [ka, 1], [kb, 1]]))
+            if len(cases) >= 400:
+                break
+        if cases:
+            return cases
     flagged = set()
     for e in side["functions"]:
         if any(k != 0 for _, k in e["fills"]) or e["unguarded_reads"] or (e["draws_global"] and not e["seed_dominated"]) \
